@@ -659,4 +659,4 @@ mod test {
 
 #[cfg(kani)]
 #[path = "/verif/harness/may_queue/mpsc.rs"]
-mod verif_kani;
+pub(crate) mod verif_kani;
